@@ -800,7 +800,7 @@ func names(h []int) []string {
 
 func TestCheck(t *testing.T) {
 	debug.SetGCPercent(400) // many tiny short-lived stores; the live heap is small
-	bq, bt := 110*time.Second, 15*time.Minute
+	bq, bt := 110*time.Second, 16*time.Minute
 	if os.Getenv("C11_FAMILY") == "dropped" {
 		bq, bt = 40*time.Second, 4*time.Minute
 	}
@@ -816,11 +816,11 @@ func TestCheck(t *testing.T) {
 	survey := os.Getenv("C11_SURVEY") != "" // development aid: count violation kinds instead of stopping
 	K := 8
 	B := vk.Pick(r, 4, 5)
-	K2 := vk.Pick(r, 5, 7) // alphabet of the second phase: two GC events per history
-	K3 := 4                // third phase: longer histories over the first batches
+	K2 := 5 // alphabet of the second phase: two GC events per history
+	K3 := 4 // third phase: longer histories over the first batches
 	B3 := vk.Pick(r, 5, 6)
 	if dropped {
-		K, B, K2, K3 = 8, vk.Pick(r, 3, 4), 0, 0
+		K, B, K2, K3 = vk.Pick(r, 8, 7), vk.Pick(r, 3, 4), 0, 0
 	}
 	persists := vk.Pick(r, []int{1, 2}, []int{1, 2, 3})
 	collapses := []int{10, 1, -1}
